@@ -1556,6 +1556,9 @@ impl<T: Storage> Raft<T> {
             Some(idx) => idx,
             None => self.raft_log.applied + 1,
         };
+        // The same holds for a snapshot that has been written but is still being applied:
+        // the entries below the first index are covered by it and gone from the log.
+        let low = cmp::max(low, self.raft_log.first_index());
         let high = self.raft_log.committed + 1;
         let ctx = GetEntriesContext(GetEntriesFor::TransferLeader);
         if self.has_unapplied_conf_changes(low, high, ctx) {
